@@ -412,15 +412,16 @@ def sym_compare(exe, sk_index, items, want_outline=True, want_hover=True, want_h
                         bad.append(dict(base, kind="sym-hover", file=path, offset=o_, model=mh[o_], observed=rh[o_]))
                         break
             if want_hints:
+                reported = False
                 for lo, hi, rhi in d["hints"].get(path, []):
                     mhi = res[i]
                     i += 1
                     stats["sym_hint_requests"] += 1
                     if isinstance(mhi, list):
                         mhi = [[h[0], cps(h[1]), h[2]] for h in mhi]
-                    if mhi != rhi:
+                    if mhi != rhi and not reported:
+                        reported = True
                         bad.append(dict(base, kind="sym-hints", file=path, range=[lo, hi], model=mhi, observed=rhi))
-                        break
     return bad, stats
 
 
